@@ -295,6 +295,17 @@ STREAM_TIE = (" StreamTransport's four methods are regenerated from the code on 
               "transport object and every injected fault.")
 for _k in ("C03", "C17"):
     CLAIMED[_k]["text"] += STREAM_TIE
+CODEC_TIE = (" The decoder's validators (validate_command, validate_message_type, validate_child_id, CommandField.validate_command, to_dict) are "
+             "regenerated from the code on every run (tools/translate.py -> Generated/CodecBodies.lean over Model/LitCodec.lean, with marshmallow's "
+             "Schema.load as constant glue) and Lemmas/CodecBodiesEq.lean proves loadGen_eq: MessageSchema.load assembled from them equals decode for "
+             "every string and version AND raises nothing but ValidationError (the clause 'never by any other kind of failure', now a theorem).")
+for _k in ("C01", "C02", "C03"):
+    CLAIMED[_k]["text"] += CODEC_TIE
+for _k in ("C01", "C02"):
+    CLAIMED[_k]["technique"] += " + decoder validators translated from the Python AST with an equality proof (CodecBodiesEq.loadGen_eq)"
+CLAIMED["C02"]["note"] = CLAIMED["C02"]["note"].replace("that no failure other than ValidationError exists is checked by the correspondence run only.",
+    "that no failure other than ValidationError leaves MessageSchema.load is theorem loadGen_eq about the translated validators inside a hand-written "
+    "rendering of marshmallow's field pipeline (LC.schemaLoad), and is also exercised by the correspondence run.")
 CLAIMED["C17"]["technique"] += " + StreamTransport methods translated from the Python AST with equality proofs (StreamBodiesEq)"
 CLAIMED["C02"]["text"] += (" The malformed stream is also fed end to end through Gateway.listen (one long-lived and fresh generators, populated registries): "
                            "a rejected line must raise InvalidMessageError carrying no decoded message, change nothing and not swallow the next line.")
